@@ -9,7 +9,13 @@ BUILD = os.path.join(VERIF, "build")
 SPEC = os.path.join(VERIF, "spec")
 TMP = os.path.join(BUILD, "tmp", str(os.getpid()))     # per process: checks may run concurrently
 JAR = "/opt/veriftools/tla/tla2tools.jar:/opt/veriftools/tla/CommunityModules-deps.jar"
-VH = os.path.join(BUILD, "target-harness", "release", "vh")
+# Development only: with VERIF_REPO=<scratch worktree> every build product lives under build/alt/<hash of the path>,
+# so that a check against a scratch copy never disturbs (or is disturbed by) a check against /repo running at the same time.
+ALT = "" if REPO == "/repo" else os.path.join(BUILD, "alt", hashlib.sha256(REPO.encode()).hexdigest()[:12])
+TARGET_HARNESS = os.path.join(ALT or BUILD, "target-harness")
+TARGET_CLI = os.path.join(ALT or BUILD, "target-cli")
+HARNESS_DIR = os.path.join(ALT, "harness") if ALT else os.path.join(VERIF, "harness")
+VH = os.path.join(TARGET_HARNESS, "release", "vh")
 
 
 class ToolError(Exception):
@@ -32,8 +38,19 @@ def build_harness():
     ensure_dirs()
     env = dict(os.environ, CARGO_NET_OFFLINE="true")
     t0 = time.time()
-    _fresh_or_clean("harness", os.path.join(VERIF, "harness"), env, ["--release"])
-    r = subprocess.run(["cargo", "build", "--release", "--offline", "--quiet"], cwd=os.path.join(VERIF, "harness"),
+    if ALT:
+        # a private copy of the harness sources whose path dependency points at the scratch worktree
+        src = os.path.join(VERIF, "harness")
+        shutil.rmtree(HARNESS_DIR, ignore_errors=True)
+        shutil.copytree(src, HARNESS_DIR, ignore=shutil.ignore_patterns("target"))
+        mp = os.path.join(HARNESS_DIR, "Cargo.toml")
+        with open(mp) as f:
+            m = f.read()
+        with open(mp, "w") as f:
+            f.write(m.replace('path = "/repo"', 'path = "%s"' % REPO))
+        env["CARGO_TARGET_DIR"] = TARGET_HARNESS
+    _fresh_or_clean("harness", HARNESS_DIR, env, ["--release"])
+    r = subprocess.run(["cargo", "build", "--release", "--offline", "--quiet"], cwd=HARNESS_DIR,
                        env=env, capture_output=True, text=True)
     if r.returncode != 0:
         sys.stderr.write(r.stdout[-4000:] + r.stderr[-8000:])
@@ -61,7 +78,7 @@ def _repo_stamp():
 def _fresh_or_clean(name, cwd, env, extra):
     """Do not trust mtimes alone: when the content of the repository differs from what the last build of this
     target saw, drop the stylua artefacts so that they are rebuilt from the current working tree."""
-    stamp_p = os.path.join(BUILD, name + ".stamp")
+    stamp_p = os.path.join(ALT or BUILD, name + ".stamp")
     cur = _repo_stamp()
     old = open(stamp_p).read() if os.path.exists(stamp_p) else ""
     if old != cur:
@@ -78,14 +95,14 @@ def build_cli():
     ensure_dirs()
     env = dict(os.environ, CARGO_NET_OFFLINE="true",
                RUSTFLAGS="--cfg stylua_verif --check-cfg cfg(stylua_verif)",
-               CARGO_TARGET_DIR=os.path.join(BUILD, "target-cli"))
+               CARGO_TARGET_DIR=TARGET_CLI)
     _fresh_or_clean("cli", REPO, env, [])
     r = subprocess.run(["cargo", "build", "--offline", "--quiet", "--bin", "stylua",
                         "--features", "luau,lua52,lua53,lua54,luajit"], cwd=REPO, env=env, capture_output=True, text=True)
     if r.returncode != 0:
         sys.stderr.write(r.stdout[-4000:] + r.stderr[-8000:])
         raise ToolError("cli build failed")
-    return os.path.join(BUILD, "target-cli", "debug", "stylua")
+    return os.path.join(TARGET_CLI, "debug", "stylua")
 
 
 # ----------------------------------------------------------------------------- TLC
